@@ -8,6 +8,7 @@ CONSTANTS
   AllocBelow = 0
   AllocAbove = 0
   ByteSized = TRUE
+  Lifetime = FALSE
 INVARIANTS LastAgrees
 POSTCONDITION Post
 CHECK_DEADLOCK FALSE
